@@ -1644,8 +1644,10 @@ class AstEval:
 
     async def ast_compare(self, arg):
         """Evaluate comparison operators by calling function based on class."""
-        left = arg.left
+        # every operand is evaluated exactly once: the evaluated value is handed on as a constant node
+        left = ast.Constant(value=await self.aeval(arg.left))
         for cmp_op, right in zip(arg.ops, arg.comparators):
+            right = ast.Constant(value=await self.aeval(right))
             name = "ast_cmpop_" + cmp_op.__class__.__name__.lower()
             val = await getattr(self, name, self.ast_not_implemented)(left, right)
             if not val:
